@@ -37,9 +37,12 @@ var c01TotalExceptions = map[string]string{
 	"bounds|(*lib/script.SigChecker).ExecuteWitnessScript|progress|loop (phi < (*lib/script.scrStack).size(param#1))": "i counts up to the number of witness items, which is bounded by the transaction size",
 }
 
-func c01Total(r *core.Run, p *core.Program, ev *ssa.Function) {
-	const rule = "R-C01-total"
-	r.Rule(rule, "script verification always ends in a verdict: the interpreter turns panics into failure; outside its recover scope stack accessors are only used with enough elements, indices and slice bounds are guarded, loops over script data advance, and the only explicit panics are the flag-consistency assertions")
+func c01Total(r *core.Run, p *core.Program, ev *ssa.Function) { c01TotalAs(r, p, ev, "R-C01-total") }
+
+func c01TotalAs(r *core.Run, p *core.Program, ev *ssa.Function, rule string) {
+	if rule == "R-C01-total" {
+		r.Rule(rule, "script verification always ends in a verdict: the interpreter turns panics into failure; outside its recover scope stack accessors are only used with enough elements, indices and slice bounds are guarded, loops over script data advance, and the only explicit panics are the flag-consistency assertions")
+	}
 	used := map[string]bool{}
 	except := func(key string) (string, bool) {
 		why, ok := c01TotalExceptions[key]
